@@ -1,10 +1,179 @@
-(* C08 -- property theorems only (temporary skeleton) *)
+(* C08 -- B-spline evaluation equals the Cox-de Boor spline of its knots and coefficients.
+   Property theorems only; each is closed by `exact` and followed by Print Assumptions.
+   Models: BSpline/Eval.v -- knots_of_option (bspline.__init__), intrv, bsplvn, value (with the sorting
+   permutation as argument), point_mask; specification: the textbook recursion B / Bl and spline. *)
 From Coq Require Import QArith List Bool Arith.
 Import ListNotations.
-From PV Require Import Lib.WLS BSpline.Eval BSpline.EvalProofs C08.Model C08.Proofs.
+From PV Require Import Lib.WLS BSpline.Eval BSpline.EvalProofs BSpline.CoxDeBoor BSpline.BasisProofs
+  BSpline.KnotsProofs BSpline.PermProofs C08.Model C08.Proofs.
 Open Scope Q_scope.
 
-Theorem C08_pass_preserves_sum : forall v dp dmr c, length dp = length v -> length dmr = length v ->
-  Forall2 (fun p m => ~ p + m == 0) dp dmr -> sumQ (pass v dp dmr c) == sumQ v + c.
-Proof. exact pass_sum. Qed.
-Print Assumptions C08_pass_preserves_sum.
+(* ---- the basis: non-negative, sums to one (every order, every knot vector, loop invariant of BSPLVN) *)
+Theorem C08_bsplvn_partition_of_unity : forall t k x l,
+  nondecr t -> (1 <= k)%nat -> (k - 1 <= l)%nat -> (l + k <= length t)%nat ->
+  nthQ t l < nthQ t (S l) -> sumQ (bsplvn t k x l) == 1.
+Proof. exact bsplvn_partition_of_unity. Qed.
+Print Assumptions C08_bsplvn_partition_of_unity.
+
+Theorem C08_bsplvn_nonneg : forall t k x l,
+  nondecr t -> (1 <= k)%nat -> (k - 1 <= l)%nat -> (l + k <= length t)%nat ->
+  nthQ t l < nthQ t (S l) -> nthQ t l <= x -> x <= nthQ t (S l) ->
+  Forall (fun a => 0 <= a) (bsplvn t k x l).
+Proof. exact bsplvn_nonneg. Qed.
+Print Assumptions C08_bsplvn_nonneg.
+
+(* ---- BSPLVN computes the Cox-de Boor basis functions: EVERY order k (induction on the order) *)
+Theorem C08_bsplvn_is_coxdeboor : forall t k x l, nondecr t -> (1 <= k)%nat -> (k - 1 <= l)%nat ->
+  (l + k < length t)%nat -> nthQ t l <= x -> x < nthQ t (S l) ->
+  forall r, (r < k)%nat -> nthQ (bsplvn t k x l) r == B t (k - 1) (l - (k - 1) + r) x.
+Proof. exact bsplvn_is_coxdeboor. Qed.
+Print Assumptions C08_bsplvn_is_coxdeboor.
+
+Theorem C08_bsplvn_is_coxdeboor_left : forall t k x l, nondecr t -> (1 <= k)%nat -> (k - 1 <= l)%nat ->
+  (l + k < length t)%nat -> nthQ t l < x -> x <= nthQ t (S l) ->
+  forall r, (r < k)%nat -> nthQ (bsplvn t k x l) r == Bl t (k - 1) (l - (k - 1) + r) x.
+Proof. exact bsplvn_is_coxdeboor_left. Qed.
+Print Assumptions C08_bsplvn_is_coxdeboor_left.
+
+(* ---- interval search: left-open interval (t_l, t_{l+1}], clamped at both ends; on sorted input the
+   running walk equals the point-by-point search *)
+Theorem C08_intrv1_spec : forall gb k x, (1 <= k)%nat -> (2 * k <= length gb)%nat ->
+  let n := (length gb - k)%nat in
+  let l := intrv1 gb k x in
+  (k - 1 <= l <= n - 1)%nat /\ ((k - 1 < l)%nat -> nthQ gb l < x) /\ ((l < n - 1)%nat -> x <= nthQ gb (S l)).
+Proof. exact intrv1_spec. Qed.
+Print Assumptions C08_intrv1_spec.
+
+Theorem C08_intrv_spec : forall gb k xs, nondecr gb -> (1 <= k)%nat -> (2 * k <= length gb)%nat ->
+  sortedQ xs = true ->
+  Forall2 (fun x l => (k - 1 <= l <= length gb - k - 1)%nat /\
+                      ((k - 1 < l)%nat -> nthQ gb l < x) /\
+                      ((l < length gb - k - 1)%nat -> x <= nthQ gb (S l)))
+          xs (intrv gb k xs).
+Proof. exact intrv_spec. Qed.
+Print Assumptions C08_intrv_spec.
+
+(* ---- evaluation of one point = value of the spline (orders >= 2, distinct knots: whole breakpoint range) *)
+Theorem C08_value_is_spline : forall gb k c x,
+  incr gb -> (2 <= k)%nat -> (2 * k <= length gb)%nat -> length c = (length gb - k)%nat ->
+  nthQ gb (k - 1) <= x -> x <= nthQ gb (length gb - k) ->
+  eval1 gb k c x == spline gb c k x.
+Proof. exact value_is_spline. Qed.
+Print Assumptions C08_value_is_spline.
+
+(* every order incl. 1, knots merely non-decreasing: the code's value is the left-continuous spline on
+   (t_{k-1}, t_n] and the right-continuous one at t_{k-1}; they differ only for order 1 at knots
+   (or on repeated knots) *)
+Theorem C08_eval1_is_spline_left : forall gb k c x,
+  nondecr gb -> (1 <= k)%nat -> (2 * k <= length gb)%nat -> length c = (length gb - k)%nat ->
+  nthQ gb (k - 1) < x -> x <= nthQ gb (length gb - k) ->
+  eval1 gb k c x == spline_left gb c k x.
+Proof. exact eval1_is_spline_left. Qed.
+Print Assumptions C08_eval1_is_spline_left.
+
+Theorem C08_eval1_is_spline_at_left_end : forall gb k c x,
+  nondecr gb -> (1 <= k)%nat -> (2 * k <= length gb)%nat -> length c = (length gb - k)%nat ->
+  x == nthQ gb (k - 1) -> nthQ gb (k - 1) < nthQ gb k ->
+  eval1 gb k c x == spline gb c k x.
+Proof. exact eval1_is_spline_at_left_end. Qed.
+Print Assumptions C08_eval1_is_spline_at_left_end.
+
+Theorem C08_spline_left_eq_spline : forall t c k x,
+  (forall i, (S i < length t)%nat -> nthQ t i < nthQ t (S i)) ->
+  (2 <= k)%nat -> length c = (length t - k)%nat -> spline_left t c k x == spline t c k x.
+Proof. exact spline_left_eq_spline. Qed.
+Print Assumptions C08_spline_left_eq_spline.
+
+(* ---- value(): in the caller's order, whatever the order of the points *)
+Theorem C08_value_in_caller_order : forall bk k coeff xs perm,
+  (1 <= k)%nat -> (2 * k <= length bk)%nat -> length coeff = (length bk - k)%nat ->
+  is_perm perm (length xs) = true -> sortedQ (apply_perm 0 perm xs) = true ->
+  value bk (repeat true (length bk)) k coeff xs perm
+  = (map (eval1 bk k coeff) xs, map (point_mask bk (repeat true (length bk)) k) xs).
+Proof. exact value_in_caller_order. Qed.
+Print Assumptions C08_value_in_caller_order.
+
+Theorem C08_value_perm_equivariant : forall bk k coeff xs q p p',
+  (1 <= k)%nat -> (2 * k <= length bk)%nat -> length coeff = (length bk - k)%nat ->
+  is_perm q (length xs) = true ->
+  is_perm p (length xs) = true -> sortedQ (apply_perm 0 p xs) = true ->
+  is_perm p' (length (apply_perm 0 q xs)) = true -> sortedQ (apply_perm 0 p' (apply_perm 0 q xs)) = true ->
+  let bm := repeat true (length bk) in
+  value bk bm k coeff (apply_perm 0 q xs) p'
+  = (apply_perm 0 q (fst (value bk bm k coeff xs p)), apply_perm true q (snd (value bk bm k coeff xs p))).
+Proof. exact value_perm_equivariant. Qed.
+Print Assumptions C08_value_perm_equivariant.
+
+(* ---- validity mask while no breakpoint is masked: False exactly outside [t_{k-1}, t_n] *)
+Theorem C08_mask_spec : forall bk k x,
+  point_mask bk (repeat true (length bk)) k x = false <->
+  (x < nthQ bk (k - 1) \/ nthQ bk (length bk - k) < x).
+Proof. exact mask_spec. Qed.
+Print Assumptions C08_mask_spec.
+
+(* ---- knot construction, one theorem per breakpoint option: non-decreasing, k-1 extra knots each side of
+   the nshort >= 2 breakpoints, data range covered (exact arithmetic; single precision is a tolerance of
+   the correspondence run) *)
+Theorem C08_knots_spec_bkpt : forall b xs k s,
+  xs <> [] -> 0 <= s -> (1 <= k)%nat -> incr b -> (2 <= length b)%nat ->
+  let t := knots_of_option (OBkpt b) xs k s in
+  nondecr t /\ (exists nshort, (2 <= nshort)%nat /\ length t = (nshort + 2 * (k - 1))%nat) /\
+  nthQ t (k - 1) <= lminQ xs /\ lmaxQ xs <= nthQ t (length t - k).
+Proof. exact knots_spec_bkpt. Qed.
+Print Assumptions C08_knots_spec_bkpt.
+
+Theorem C08_knots_spec_placed : forall p xs k s,
+  xs <> [] -> lminQ xs < lmaxQ xs -> 0 <= s -> (1 <= k)%nat -> incr p ->
+  let t := knots_of_option (OPlaced p) xs k s in
+  nondecr t /\ (exists nshort, (2 <= nshort)%nat /\ length t = (nshort + 2 * (k - 1))%nat) /\
+  nthQ t (k - 1) <= lminQ xs /\ lmaxQ xs <= nthQ t (length t - k).
+Proof. exact knots_spec_placed. Qed.
+Print Assumptions C08_knots_spec_placed.
+
+Theorem C08_knots_spec_bkspace : forall sp xs k s,
+  xs <> [] -> lminQ xs < lmaxQ xs -> 0 <= s -> (1 <= k)%nat -> 0 < sp ->
+  let t := knots_of_option (OBkspace sp) xs k s in
+  (nondecr t /\ (exists nshort, (2 <= nshort)%nat /\ length t = (nshort + 2 * (k - 1))%nat) /\
+   nthQ t (k - 1) <= lminQ xs /\ lmaxQ xs <= nthQ t (length t - k)) /\
+  nthQ t (k - 1) == lminQ xs /\ nthQ t (length t - k) == lmaxQ xs.
+Proof. exact knots_spec_bkspace. Qed.
+Print Assumptions C08_knots_spec_bkspace.
+
+Theorem C08_knots_spec_nbkpts : forall nb xs k s,
+  xs <> [] -> lminQ xs < lmaxQ xs -> 0 <= s -> (1 <= k)%nat ->
+  let t := knots_of_option (ONbkpts nb) xs k s in
+  (nondecr t /\ (exists nshort, (2 <= nshort)%nat /\ length t = (nshort + 2 * (k - 1))%nat) /\
+   nthQ t (k - 1) <= lminQ xs /\ lmaxQ xs <= nthQ t (length t - k)) /\
+  nthQ t (k - 1) == lminQ xs /\ nthQ t (length t - k) == lmaxQ xs.
+Proof. exact knots_spec_nbkpts. Qed.
+Print Assumptions C08_knots_spec_nbkpts.
+
+Theorem C08_knots_spec_everyn : forall e xs k s,
+  xs <> [] -> 0 <= s -> (1 <= k)%nat -> incr xs -> (1 <= e)%nat -> (2 <= length xs / e)%nat ->
+  let t := knots_of_option (OEveryn e) xs k s in
+  nondecr t /\ (exists nshort, (2 <= nshort)%nat /\ length t = (nshort + 2 * (k - 1))%nat) /\
+  nthQ t (k - 1) <= lminQ xs /\ lmaxQ xs <= nthQ t (length t - k).
+Proof. exact knots_spec_everyn. Qed.
+Print Assumptions C08_knots_spec_everyn.
+
+Theorem C08_pad_middle : forall b k s i, (i < length b)%nat -> nthQ (pad b k s) (k - 1 + i) = nthQ b i.
+Proof. exact pad_middle. Qed.
+Print Assumptions C08_pad_middle.
+
+(* ---- the specification checker of the correspondence run evaluates exactly the textbook recursion *)
+Theorem C08_checker_splineq_is_spline : forall t c k x, splineq t c k x == spline t c k x.
+Proof. exact splineq_eq. Qed.
+Print Assumptions C08_checker_splineq_is_spline.
+
+Theorem C08_checker_splineq_left_is_spline_left : forall t c k x, splineq_left t c k x == spline_left t c k x.
+Proof. exact splineq_left_eq. Qed.
+Print Assumptions C08_checker_splineq_left_is_spline_left.
+
+(* non-vacuity: a cubic knot vector built by the nbkpts option satisfies the hypotheses; basis sums to one *)
+Example C08_example :
+  let xs := [0; 1#2; 3; 9] in
+  let gb := knots_of_option (ONbkpts 4) xs 4 1 in
+  gb = [-9; -6; -3; 0; 3; 6; 9; 12; 15; 18] /\ intrv1 gb 4 (5#2) = 3%nat /\
+  Qeq_bool (sumQ (bsplvn gb 4 (5#2) 3)) 1 = true /\
+  Qeq_bool (eval1 gb 4 [1;2;3;4;5;6] (5#2)) (spline gb [1;2;3;4;5;6] 4 (5#2)) = true.
+Proof. vm_compute. repeat split; reflexivity. Qed.
